@@ -20,13 +20,20 @@ CHECKS = {
              "simulated behaviours of the others.",
         ref="6/C01"),
     "C02": dict(
-        technique="TLA+ spec Fanout (join prologue: metadata, sequence headers in force, cached GOPs, wait-for-key gating, "
-                  "re-publish epochs; TLC exhaustive + simulation) + replay into a real logic.Group + TLC trace validation",
+        technique="TLA+ specs Fanout (join prologue: metadata, sequence headers in force, cached GOPs, wait-for-key gating, "
+                  "re-publish epochs), RemuxOut (late HTTP-TS consumer; RTSP subscriber with DESCRIBE and PLAY at any two "
+                  "instants: reference model of lal's analyse stage, description and key gate + acceptor) and Republish; TLC "
+                  "exhaustive + simulation + model-level mutants + replay into a real logic.Group + TLC trace validation",
         text="TLC checks HeadersFirst, HeaderInForce, KeyFirst, GopReplay and NoWaitWithoutVideo over every join instant "
-             "relative to the publish sequence, audio-only / video-only / late-header streams and re-publish histories; "
-             "behaviours are replayed into a real Group and what each consumer has received after every step is decided by TLC.",
-        note="RTMP / HTTP-FLV / WS-FLV consumers; the start of TS, HLS and RTSP consumers is decided through the remux models "
-             "of C06 / C10 only for a consumer present from the start (late TS / RTSP joiners are not modelled).",
+             "relative to the publish sequence, audio-only / video-only / late-header streams and re-publish histories for "
+             "RTMP / HTTP-FLV / WS-FLV consumers; for HTTP-TS consumers PAT/PMT first, parameter sets in force and start at a "
+             "boundary (late joiner t2, joiners of a later publisher epoch, cached TS GOP); for RTSP subscribers SdpCur (the "
+             "description carries the video sequence header in force when DESCRIBE is answered), KeyFirst and "
+             "RtspStartsInTime (next key frame after PLAY; next audio frame when described without video); behaviours are "
+             "replayed into a real Group and what each consumer has received after every step is decided by TLC.",
+        note="The HTTP-TS / RTSP parts reuse the machinery of C06 / C16 (tools/props/c06.py with c02=True, republish_common). "
+             "Not decided: an AAC config change after lal's analyse stage in the SDP, tracks that first appear after the "
+             "analyse stage, UDP transport, HLS players joining late (C10 decides the playlist / segment side).",
         ref="6/C02"),
     "C08": dict(
         technique="TLA+ spec RtmpChunk (reference writer x spec reader, TLC exhaustive) + edge-cover replay into "
@@ -244,7 +251,9 @@ CHECKS = {
              "is observed through the finalised TS record / HLS files only (C06 / C10 inspect their content). The idle sweep "
              "is modelled without relay pull / push sessions and GB28181 inputs (their own timeout). KeyCuts / "
              "JoinStartsInTime of Republish apply only to epochs without AAC; RTSP subscribers staying across a republish "
-             "and non-RTMP predecessors / successors are not covered.",
+             "and non-RTMP predecessors / successors are not covered. Short epochs that end inside the probe stage are included; "
+             "an RTSP subscriber staying across a republish is decided only for 'no predecessor content' (AcceptStay), the rest "
+             "of its fate is unspecified by the properties.",
         ref="6/C16"),
     "C06": dict(
         technique="TLA+ acceptor RemuxOut (SameUnits, OnlyAllowedExtras, parameter sets in force, TsTime mod 2^33, Adts, RtpTime, "
@@ -256,8 +265,11 @@ CHECKS = {
              "kinds x audio codecs x timestamp increments, with boundary NAL / audio sizes, are published through a real Group "
              "and what HTTP-TS subscribers (GOP cache 0-2), the HLS segments and RTSP/RTP consumers carry, demultiplexed by "
              "independent TS/PES/PSI, Annex-B, ADTS, RTP and SDP readers, is decided by TLC with the acceptor.",
-        note="Exhaustive only for the reference model at <= 6 messages; the code is sampled (268 quick / ~10.5k thorough "
-             "scenarios + directed size sweeps); RTSP over UDP is not exercised; no media decoder is run.",
+        note="Exhaustive only for the reference model at <= 6 messages (5 BFS runs + 3 model-level mutants + 2 witnesses in "
+             "quick; 13 / 5 in thorough); the code is sampled (~320 quick / ~10.9k thorough scenarios + directed sweeps: NAL "
+             "sizes, RTSP join shapes, streams shorter than lal's probe stage, PES-clock top-bit edges at 2^30 / 2^31 / 2^32 / "
+             "the 2^33 wrap); StartsInTime is evaluated at the end of the stream without a probe-stage excuse; late HTTP-TS "
+             "and RTSP joiners are part of the model; RTSP over UDP is not exercised; no media decoder is run.",
         ref="6/C06"),
     "C10": dict(
         technique="TLA+ model Hls of hls.Muxer with the file system as a state variable, one spec step per file-system "
